@@ -847,7 +847,10 @@ impl<A: Subject> Runner<A> {
       Op::Clear => {
         let pre = a.snap(64);
         self.forget_all();
+        // in every other history a second arena value (a clone) is alive while the arena is cleared
+        let keep = if self.patn % 2 == 1 { Some(a.clone()) } else { None };
         let r = unsafe { a.clear() };
+        drop(keep);
         let post = a.snap(64);
         if r.is_ok() {
           self.tainted = false;
